@@ -825,18 +825,28 @@ impl<C: Config, Q: Query> Snapshot<C, Q> {
     pub async fn clean_query(
         &mut self,
         clean_edges: Vec<QueryID>,
-        new_tfc: Option<Interned<TransitiveFirewallCallees>>,
+        new_tfc: Option<(
+            Interned<TransitiveFirewallCallees>,
+            ForwardEdgeObservation<C>,
+        )>,
         timestamp: Timestamp,
     ) {
         let mut tx = self.engine().new_write_transaction();
 
-        let new_node_info = if let Some(x) = new_tfc {
+        let new_node_info = if let Some((x, observations)) = new_tfc {
             let mut current_node_info = self.node_info().await.unwrap();
 
             current_node_info.transitive_firewall_callees = x;
             current_node_info.transitive_firewall_callees_fingerprint = self
                 .engine()
                 .hash(&current_node_info.transitive_firewall_callees);
+
+            self.engine()
+                .computation_graph
+                .database
+                .forward_edge_observation
+                .insert(*self.query_id(), observations, &mut tx)
+                .await;
 
             Some(current_node_info)
         } else {
